@@ -93,8 +93,13 @@ func checkMk(t *Toks, literal bool) string {
 	}
 	// failures of the literal statement that are inherent in the format (known findings), reported last
 	// every hash, every byte (every bit for small blocks)
-	for i := range p.hashes {
-		for j := 0; j < 32; j++ {
+	hstep, bstep, fstep := 1, 1, 1
+	if n > 40 { // larger blocks: a sample of the hashes, bytes and flag bits
+		hstep, bstep = 1+len(p.hashes)/8, 8
+		fstep = 1 + 8*len(flags)/64
+	}
+	for i := 0; i < len(p.hashes); i += hstep {
+		for j := 0; j < 32; j += bstep {
 			for b := 0; b < 8; b++ {
 				if n > 9 && b != (i+j)%8 {
 					continue
@@ -110,7 +115,7 @@ func checkMk(t *Toks, literal bool) string {
 		}
 	}
 	// every flag bit, padding included
-	for i := 0; i < 8*len(flags); i++ {
+	for i := 0; i < 8*len(flags); i += fstep {
 		fl := append([]byte{}, flags...)
 		fl[i/8] ^= 1 << uint(i%8)
 		same, r := sameRoot(p.hashes, fl, uint32(n))
@@ -373,6 +378,8 @@ func checkC20Claim(t *Toks) string {
 func init() {
 	checks["C20/mk"] = checkC20Mk
 	checks["C20/mkc"] = checkC20Mkc
+	checks["C20/mkdense"] = checkC20Mk
+	checks["C20/mkdbig"] = checkC20Mk
 	checks["C20/proof"] = checkC20Proof
 	checks["C20/claim"] = checkC20Claim
 }
